@@ -307,11 +307,21 @@ func run(args []string) error {
 		}
 	}
 
+	// ---- the real getters behind Visor.GetTransactions on a real node
+	q, err := runQueries(r, o, hist, thorough)
+	if err != nil {
+		return err
+	}
+	caseJSON["query"] = q.sessJSON
+	caseJSON["qorder"] = q.ordJSON
+	o.Def("cases_query", "Z * Z * list (Z * res (list Z * Z * error))", q.sessions)
+	o.Def("cases_qorder", "bool * list Z", q.orders)
+
 	o.Def("cases_cal", "Z * Z * Z * error * res (Z * Z * Z * error)", cal)
 	o.Def("cases_calraw", "Z * Z * Z * res (Z * Z * Z * error)", calraw)
 	o.Def("cases_page", "Z * Z * Z * res (list Z * Z * error)", page)
 	o.Def("cases_partition", "Z * Z * list (Z * res (list Z * Z * error))", partition)
-	o.Side["rule"] = "requests (size, page number, list length) from a boundary grid (size 0/1/100/101/2^63/2^64-1, page 0/1/2^63±1/2^64-1 and every page at which size*(page-1) wraps round 2^64, length 0..2^64-1) plus boundary-biased random; real Pagination on lists of <=300 (sessions <=2000) distinct hashes; a case is non-trivial when NewPageIndex accepted the request; distinct by input tuple"
+	o.Side["rule"] = "requests (size, page number, list length) from a boundary grid (size 0/1/100/101/2^63/2^64-1, page 0/1/2^63±1/2^64-1 and every page at which size*(page-1) wraps round 2^64, length 0..2^64-1) plus boundary-biased random; real Pagination on lists of <=300 (sessions <=2000) distinct hashes; Visor.GetTransactions on a real node (blocks + unconfirmed pool) for confirmed any/true/false x address sets (none, one, several, duplicated) x asc/desc, every page for sizes 1,2,3,len/2,len-1,len,len+1 compared with the unpaged answer of the same query; a case is non-trivial when NewPageIndex accepted the request; distinct by input tuple"
 	o.Side["distribution"] = hist.Sorted()
 	o.Side["samples"] = samples
 	o.Side["cases"] = caseJSON
